@@ -318,7 +318,7 @@ def check(run):
                 'the lock object under every sequence of up to four owner / environment operations (helper replaced by a stand-in) vs Model/KeepAliveLock.lean; model state (mtime, exit round) compared with the real run; non-trivial = the run crossed at least one refresh; distinct by parameters')
     run.assumptions = ['a wake-up of the helper is late by at most 10 s and the helper starts within 59 s of get() (environment assumption, fixed independently of the constants of the code; today\'s constants would tolerate 24 s)',
                        'getppid()/kill(pid, 0) report the death of the worker at the next wake-up', 'a refresh in flight while the helper is being SIGKILLed is not modelled']
-    run.trusted = ['Lean 4.33.0 kernel', 'axioms propext, Classical.choice, Quot.sound', 'harness/jugverif/props/c19.py (simulated clock; constants and call order are measured from the behaviour of the real loop)']
+    run.trusted = ['Lean 4.33.0 kernel', 'axioms propext, Classical.choice, Quot.sound', 'harness/jugverif/props/c19.py (simulated clock; constants and call order are measured from the behaviour of the real loop; the stand-in for Popen in the lock-object family behaves as Popen does for kill() / poll())']
     k = extract()
     run.lean(['JugModel.Props.C19', 'JugModel.Props.KALock', 'jugdrv'], theorems_expected=THEOREMS)
     run.case(('fail-racing-refresh',), nontrivial=True)
